@@ -362,6 +362,13 @@ def solver_method(interp, ref, o: HSolver, name, args, kwargs, node):
         o.soft.pop()
         interp.log("solver.pop", node, obj=ref, depth=len(o.frames), dropped=tuple(fr))
         return Const(None)
+    if name == "add_assertions" and len(args) == 1:
+        # pysmt: every formula of one iterable
+        for sg in interp.segments(args[0], node):
+            it = seg_to_formula(interp, sg, node) if sg[0] in ("one", "each", "each*") else ("each", interp.fresh_var("a"), ("members", sg[1]), PTRUE, ("f", ("opaque", ("member-of", sg[1]))))
+            o.frames[-1].append(it)
+            interp.log("solver.assert", node, obj=ref, item=it, depth=len(o.frames))
+        return Const(None)
     if name in ("add_assertion", "add", "assert_exprs", "append", "insert"):
         for it in formula_args(interp, args, node):
             o.frames[-1].append(it)
